@@ -16,7 +16,7 @@ TEXT, CLASS, STYLE, PROPS, FULL_PROPS, HYDRATE_EVENTS, NEED_PATCH = 1, 2, 4, 8, 
 NAMES = {'class': 'class', 'style': 'style', 'key': 'key', 'ref': 'ref', 'onClick': 'onClick', 'onFoo': 'onFoo', 'onUpd': 'onUpdate:modelValue',
          'plain': 'title', 'ns': 'xlink:href', 'on': 'on', 'onclick': 'onclick', 'nativeOn': 'nativeOn'}
 VKINDS = {'s': '="st"', 'b': '', 'c': '={{1}}', 'ca': '={{[1, "a"]}}', 'co': '={{{{a: 1, "b": [2]}}}}', 'u': '={{undefined}}',
-          'd': '={{v1}}', 'dm': '={{v2.x}}', 'da': '={{[1, v3]}}', 'do': '={{{{a: v4}}}}', 'dck': '={{{{[v1]: 1}}}}', 'dsh': '={{{{v2}}}}', 'dtpl': '={{`a${{v3}}`}}'}
+          'd': '={{v1}}', 'dm': '={{v2.x}}', 'da': '={{[1, v3]}}', 'do': '={{{{a: v4}}}}', 'dck': '={{{{[v1]: 1}}}}', 'dckt': '={{{{[`k-${{v3}}`]: 1}}}}', 'cckl': '={{{{["lit"]: 1, [`t`]: 2}}}}', 'dsh': '={{{{v2}}}}', 'dtpl': '={{`a${{v3}}`}}'}
 SPECIAL = {'spread': '{{...s1}}', 'spreadO': '{{...{{id: v1}}}}', 'vmodel': 'v-model={{v1}}', 'vmodelC': 'v-model={{[v1, v2]}}', 'vmodelS': 'v-model={{[v1, "foo"]}}',
            'dir': 'v-foo={{v2}}', 'show': 'v-show={{v3}}', 'vhtml': 'v-html={{v4}}', 'vtext': 'v-text="t"', 'onobj': 'on={{o1}}'}
 
@@ -73,8 +73,12 @@ def may_change(e):
                 return True
             pr = deref(p.fields[0])
             if pr.variant == 'KeyValue':
-                if pr.fields[0].get('key').variant == 'Computed':
-                    return True
+                k = pr.fields[0].get('key')
+                if k.variant == 'Computed':
+                    ke = denote.E(k.fields[0].get('expr'))
+                    static_key = denote.is_expr(ke, 'Lit') or (denote.is_expr(ke, 'Tpl') and len(ke.fields[0].get('exprs')) == 0)
+                    if not static_key:
+                        return True
                 if may_change(pr.fields[0].get('value')):
                     return True
             elif pr.variant == 'Shorthand':
@@ -316,7 +320,7 @@ def jobs(tier):
         out.append({'host': h, 'attrs': []})
         for it in pal:
             out.append({'host': h, 'attrs': [it]})
-        for k in ('dck', 'dsh', 'dtpl', 'u', 'ca', 'da', 'do', 'dm'):
+        for k in ('dck', 'dckt', 'cckl', 'dsh', 'dtpl', 'u', 'ca', 'da', 'do', 'dm'):
             out.append({'host': h, 'attrs': ['plain/' + k]})
             out.append({'host': h, 'attrs': ['class/' + k, 'plain/d']})
         for n in ([2, 3, 5, 7] if tier == 'quick' else [2, 3, 4, 5, 6, 7, 8]):
